@@ -19,6 +19,7 @@ from .. import encode, genpel, seams, tlc
 ID = 'C11'
 LEVEL = 'model_checking'
 TRACE = 'trace/Trace_C11'
+PROOFS = ['DeleteLoopProof']
 RULE = ('case = one behaviour: a concrete directory tree (PEL files, junk, nested directories, names with and '
         'without entry ids) and a sequence of 4-8 CLI invocations (TLC-simulated from Gen_PelDir or seeded random); '
         'one record per invocation with tree snapshots before/after; non-trivial = the invocation is a delete / '
@@ -38,7 +39,9 @@ IDS = {1: 0x50000A01, 2: 0x50000A02, 3: 0x50000A03, 4: 0x5000FFFF,
 
 def model_checks(tier):
     return [dict(module='mc/MC_PelDir', cfg='mc/MC_PelDir_code', workers=8,
-                 must_cover=['StartDeleteOne', 'StartDeleteAll', 'ReadOnly', 'Step'])]
+                 must_cover=['StartDeleteOne', 'StartDeleteAll', 'ReadOnly', 'Step']),
+            # the instance of the module whose theorem tlapm proves for every tree and listing order
+            dict(module='mc/MC_DeleteLoopProof', cfg='mc/MC_DeleteLoopProof', must_cover=['Start', 'Step', 'Again'])]
 
 
 def cases(tier, seed, info):
